@@ -79,6 +79,16 @@ def main():
         finally:
             shutil.rmtree(d, ignore_errors=True)
         json.dump(res, open(os.path.join(sd, "result.json"), "w"), indent=1)
+        # meta.json carries what the author said plus what we confirmed ourselves
+        meta["what_we_ran"] = {
+            "commands": ["copy of /repo working tree under $TMPDIR; demo.py on the unchanged copy",
+                         "patch.diff applied to the copy; /venv/bin/python -m pytest -q -p no:cacheprovider unit_tests",
+                         "demo.py on the changed copy",
+                         "VERIF_REPO=<copy> VERIF_OUT=<copy>/.verif-out ./check %s --tier quick" % prop],
+            "demo_exit_unchanged": res.get("demo_on_unchanged"), "own_suite_with_change": res.get("baseline_with_change"),
+            "demo_exit_with_change": res.get("demo_with_change"), "check_exit_code": (res.get("check") or {}).get("rc"),
+            "caught": res.get("caught"), "violation_keys": (res.get("check") or {}).get("keys"), "repo_head": res.get("repo_head"), "at": res.get("at")}
+        json.dump(meta, open(os.path.join(sd, "meta.json"), "w"), indent=1)
         print("%-28s %s valid=%s caught=%s keys=%s" % (sid, prop, res.get("baseline_passes") and res.get("demo_with_change") != 0 and res.get("demo_on_unchanged") == 0,
                                                   res.get("caught"), (res.get("check") or {}).get("keys")), flush=True)
     # summary
